@@ -45,7 +45,7 @@ DQ_RULES = [
     Call(_LINK + r"\.load", "node_load(self, &{h1})", None),
     Call(_LINK + r"\.store", "node_store(self, &{h1}, {0})", None),
     Call(_LINK + r"\.compare_exchange_strong", "node_cas(self, &{h1}, &{0}, {1})", None),
-    Sub(r"\bnode\* (\w+) =", r"struct node *\1 =", None),
+    Sub(r"\bnode\s*\*\s*(const\s+)?(\w+)\s*=", r"struct node *\1\2 =", None),
     Call0(r"\balloc_node", "alloc_node(self, {0}, {1}, {2}, 0, 0)"),     # default arguments ltag = 0, rtag = 0 spelled out
     Call0(r"\bdealloc_node", "dealloc_node(self, {0})"),
     # `stabilize_x(v); return <literal>;` -- v is dead after the call, so the reference argument is lowered copy-in into a
